@@ -1750,6 +1750,16 @@ pub fn gen_module(words: &[u32], profile: &Profile, name: &str) -> Module {
                         .filter(|j| !names_inside.contains(&cx.types[*j].ts_name()) || !twin_of(*j))
                         .filter(|j| cx.types[*j].expected_path().ends_with(".ts"))
                         .collect();
+                    // (two definitions with one TypeScript name must not meet in one instantiation -
+                    // neither as plain arguments nor as an instantiated generic next to one)
+                    let mut used_before = std::collections::BTreeSet::new();
+                    for a in &args {
+                        model::collect_users(a, &mut used_before);
+                    }
+                    let generic_cands: Vec<usize> = generic_cands
+                        .into_iter()
+                        .filter(|c| !used_before.iter().any(|u| u != c && cx.types[*u].ts_name() == cx.types[*c].ts_name()))
+                        .collect();
                     if !generic_cands.is_empty() && t.pct(15) {
                         let j = *t.pick(&generic_cands);
                         let inner: Vec<TyExpr> = cx.types[j]
